@@ -47,6 +47,12 @@ CLAIMED = {
   "note": "Trusted: Lean kernel; purity of eval_query rests in the code on &Context without interior mutability (observed through the digest); the clock is pinned; `ans` is stored for QueryReply::Number only, as the property's mechanism states (a time value rendered as a duration breakdown does not update it).",
   "design_ref": "DESIGN.md §7 C15",
  },
+ "C07": {
+  "technique": "Lean 4 proof of the resolution order for every registry (exact_wins, prefix_reading = first prefix in list order, plural_last, determinism) + exhaustive side-by-side computation of lookup/canonicalize over all prefix+unit[+s] names",
+  "text": "For every registry: an exactly defined name denotes its definition; otherwise the prefix loop returns prefix value x unit value for the first prefix in list order whose remainder is exact (prefixLoop_eq characterises the loop by List.find?); the plural s is tried only when exact and prefix readings both fail; ans/ANS/_ are the only names shadowing the database; lookup is a function of the registry. The model is tied to Context::lookup and Context::canonicalize by computing, for every string prefix+unit[+s] over the bundled database (about 543 000 names, 1/10 sample of prefixed forms in quick, all in thorough), the value, the canonical name and the value of the canonical name on both sides; the ordering laws are re-derived in the harness without rink's lookup code and canonicalisation is checked to preserve the value for every name.",
+  "note": "Trusted: Lean kernel; Rust's ordered containers. Value preservation of canonicalize is decided by exhaustive computation over the shipped database (complete for it), not by a theorem for arbitrary databases; random databases with colliding names are not generated yet.",
+  "design_ref": "DESIGN.md §7 C07",
+ },
 }
 
 NOT_YET = {
